@@ -34,8 +34,8 @@ type walOp struct {
 
 // scripted handler: answers by the event's own plan and the number of recoveries that examined it
 type walHandler struct {
-	typ  string
-	env  *walEnv
+	typ string
+	env *walEnv
 }
 
 type emitter interface{ Emit(map[string]any) }
@@ -55,7 +55,7 @@ type walEnv struct {
 	ans  map[string]string // answer chosen at Decode for this recovery
 }
 
-func (h *walHandler) Typ() string { return h.typ }
+func (h *walHandler) Typ() string                  { return h.typ }
 func (h *walHandler) Encode(x any) ([]byte, error) { return json.Marshal(x) }
 func (h *walHandler) Decode(b []byte) (any, error) {
 	var it walItem
